@@ -22,6 +22,12 @@ class _DomainOnly:
         return getattr(self._rep, name)
 
     def violation(self, key, what, case):
+        # the recorded C07 finding about the BARE prefix of a nested path-based fallback (`/p{*catch_all}` never matches `/p`) is a
+        # question of which requests a path prefix covers, not of which hosts a domain guard accepts: it stays with C07 also when the
+        # table happens to carry domain guards (slices Q9 / T9: one guard on two sibling blueprints)
+        if key.startswith("route:nested-fallback:bare-prefix"):
+            self.dropped += 1
+            return
         if "domains=" in what and "domains=none" not in what:
             if isinstance(case, dict):
                 case = dict(case)
